@@ -121,10 +121,26 @@ def runModelRt (ts : List String) : String :=
     | none => "bad-case"
   | _ => "bad-case"
 
+/-- `cw hold <k> pk <m> … tbl <n> …`: concurrent writers; the first packet holds `writeLock` when the second
+writer starts, so the lock order is packet 0, then the others: an `rt` case read byte by byte. -/
+def cwToRt (ts : List String) : Option (List String) :=
+  match ts with
+  | "hold" :: _ :: rest =>
+    let pkPart := rest.takeWhile (· != "tbl")
+    let tblPart := rest.dropWhile (· != "tbl")
+    some (["rt", "eof"] ++ tblPart ++ pkPart ++ ["ch", "0"])
+  | _ => none
+
 /-- `rtw <side> …` is an `rt` case whose chunks were real WebSocket messages: the model does not
 care which transport produced the chunks (`C01_main` quantifies over all chunkings). -/
 def runModel (ts : List String) : String :=
   match ts with
+  | "cw" :: rest =>
+    match cwToRt rest with
+    | some rt =>
+      let full := runModelRt rt
+      " ".intercalate ((full.splitOn " ").takeWhile (· != "wire"))
+    | none => "bad-case"
   | "rtw" :: _ :: rest =>
     -- no `wire`/`wc` part in the WebSocket observation: compare the decoded side only
     let full := runModelRt ("rt" :: rest)
@@ -142,6 +158,10 @@ def runHoldsRt (caseToks obsToks : List String) : String :=
 
 def runHolds (caseToks obsToks : List String) : String :=
   match caseToks with
+  | "cw" :: rest =>
+    match cwToRt rest with
+    | some rt => runHoldsRt rt obsToks
+    | none => "bad-case"
   | "rtw" :: _ :: rest => runHoldsRt ("rt" :: rest) obsToks
   | _ => runHoldsRt caseToks obsToks
 
